@@ -80,7 +80,8 @@ def _seq(draw):
             ops.append(["set", key, draw(st.sampled_from(VALUES)), cwd])
         else:
             ops.append([kind, key, cwd])
-    return {"kind": "seq", "ops": ops, "invoke": {"plan": [0], "obj": None, "wf_link": True} if draw(st.integers(0, 3)) == 0 else None}
+    return {"kind": "seq", "ops": ops, "bflags": draw(st.lists(st.sampled_from([None, None, "slurm", "sge", "lsf"]), max_size=4)),
+            "invoke": {"plan": [0], "obj": None, "wf_link": True} if draw(st.integers(0, 3)) == 0 else None}
 
 
 @st.composite
@@ -112,7 +113,10 @@ def _ns(draw):
         "config_via": draw(st.sampled_from(["file", "cli"])),
         "foreign": draw(st.lists(st.sampled_from(["backend.slurmx.y", "backend.sge.zz", "backend.local.port",
                                                   "backend.lsfx", "backend.slurm_extra.k", "local.port",
-                                                  "backend.slu.log_mode"]), max_size=3, unique=True)),
+                                                  "backend.slu.log_mode",
+                                                  # settings parked under another prefix: the namespace occurs inside the key
+                                                  "old.backend.slurm.log_mode", "x.backend.slurm.accounting_enabled",
+                                                  "notes.backend.sge.zz", "old.backend.lsf.q"]), max_size=3, unique=True)),
     }
 
 
@@ -150,12 +154,21 @@ def run_seq(case):
         os.remove(proj.path(".gwfconf.json"))
         touched = []
         unset_seen = False
+        flags = case.get("bflags") or []
+
+        def bflag(i):
+            # a backend chosen on the command line applies to that invocation only: it is not a setting
+            f = flags[(i - 1) % len(flags)] if flags else None
+            if f:
+                labels.add("backend-flag-on-config-command")
+            return ["-b", f] if f else []
+
         for i, op in enumerate(case["ops"], 1):
             kind, key = op[0], op[1]
             cwd = proj.path(op[-1]) if op[-1] else proj.dir
             touched.append(key)
             if kind == "set":
-                r = proj.gwf(["config", "set", "--", key, op[2]], cwd=cwd)
+                r = proj.gwf(bflag(i) + ["config", "set", "--", key, op[2]], cwd=cwd)
                 if r.code != 0 or r.crashed:
                     viols.append(Violation({"kind": "set-failed", "exc": type(r.exc).__name__ if r.exc else None}, r.brief()))
                     break
@@ -166,7 +179,7 @@ def run_seq(case):
                 labels.add("class-" + cls)
             elif kind == "unset":
                 unset_seen = True
-                r = proj.gwf(["config", "unset", "--", key], cwd=cwd)
+                r = proj.gwf(bflag(i) + ["config", "unset", "--", key], cwd=cwd)
                 if r.code != 0 or r.crashed:
                     viols.append(Violation({"kind": "unset-failed", "was_set": key in model, "has_default": key in DEFAULTS,
                                             "exc": type(r.exc).__name__ if r.exc else None},
@@ -358,7 +371,7 @@ def run_ns(case):
         cfg["backend.slurm.log_mode"] = case["log_mode"]
     for k in case["foreign"]:
         if not k.startswith(f"backend.{b}."):  # unknown keys of the selected namespace are out of scope
-            cfg[k] = "zz"
+            cfg[k] = {"old.backend.slurm.log_mode": "none", "x.backend.slurm.accounting_enabled": False}.get(k, "zz")
     with project.Project(DESC, backend=b, invoke=case.get("invoke")) as proj:
         proj.write_config(cfg, via_cli=case.get("config_via") == "cli")
         r = proj.gwf(["run"])
